@@ -401,6 +401,18 @@ func (x *Exec) callByContract(st *State, fr *Frame, fc *FuncContract, ci calleeI
 			}
 		}
 	}
+	// ghost state private to the callee is existentially quantified for the caller
+	for _, g := range fc.Ghosts {
+		func() {
+			defer func() { recover() }()
+			srt, typ := ghostSort(g.Type)
+			if typ != nil && len(Layout(typ)) > 1 {
+				env.vars[g.Name] = st.freshVal(typ, "cg_"+g.Name)
+			} else {
+				env.vars[g.Name] = Val{Typ: typ, C: []*T{st.X.fresh("cg_"+g.Name, srt)}}
+			}
+		}()
+	}
 	calleeShort := x.stripOwnPkg(ci.key)
 	for i, c := range fc.Requires {
 		g, err := env.EvalBool(c.Expr)
